@@ -456,6 +456,87 @@ PROPS["C05"] = dict(
     ],
 )
 
+
+def prepare_corpus15(chk, pid, tier, seed, outdir):
+    """C15: run zlink-codegen (as a library, through the `cg` tool) on a generated set of interfaces, compile
+    the result, and hand over to the drivers. Modules that do not compile are reported (violation: generated
+    code does not compile) and left out, so that the rest of the corpus is still exercised."""
+    import hashlib, os, re, subprocess
+    size = "quick" if tier == "quick" else "thorough"
+    cseed = 1 if tier == "quick" else seed
+    gen_dir = os.path.join(chk.HARNESS, "corpus15", "src", "gen")
+    results, inconclusive = [], []
+    ok, out = chk.build("native", "cg")
+    if not ok:
+        # cg links zlink-codegen: if that does not build, nothing can be observed
+        return dict(results=[], inconclusive=["the corpus generator (which links zlink-codegen) does not build: " + out[-600:]], abort=True)
+    cg = os.path.join(chk.HARNESS, "target-native", "release", "cg")
+    # the generated code depends on zlink-codegen itself: regenerate whenever the generator binary or the seed changes
+    stamp = hashlib.sha1(open(cg, "rb").read()).hexdigest()[:16] + f"-{cseed}-{size}"
+    stamp_file = os.path.join(gen_dir, ".stamp")
+    excluded = []
+
+    def generate():
+        r = subprocess.run([cg, str(cseed), size, gen_dir, ",".join(map(str, excluded))], stdout=subprocess.PIPE, stderr=subprocess.STDOUT, text=True)
+        return r.returncode == 0, r.stdout
+
+    if not (os.path.exists(stamp_file) and open(stamp_file).read() == stamp):
+        g, gout = generate()
+        if not g:
+            return dict(results=[], inconclusive=["cg failed: " + gout[-600:]], abort=True)
+        open(stamp_file, "w").write(stamp)
+    for attempt in range(4):
+        chk._built.pop(("native", "corpus15", "drivers", "-c15"), None)
+        ok, out = chk.build("native", "corpus15", "drivers", "-c15")
+        if ok:
+            break
+        chk._built.pop(("native", "corpus15", "", "-c15"), None)
+        ok1, out1 = chk.build("native", "corpus15", "", "-c15")            # generated modules only
+        if ok1:
+            inconclusive.append("the generated modules compile but the harness' drivers do not fit them: " + out[-800:])
+            break
+        bad = sorted(set(int(x) for x in re.findall(r"gen/m(\d+)\.rs", out1)))
+        if not bad or attempt == 3:
+            inconclusive.append("corpus15 does not build and no generated module is named in the errors: " + out1[-600:])
+            break
+        first_err = {}
+        for m in re.finditer(r"(error(?:\[E\d+\])?: [^\n]*)\n\s*--> corpus15/src/gen/m(\d+)\.rs", out1):
+            first_err.setdefault(int(m.group(2)), m.group(1))
+        rep = dict(property=pid, monitor="c15", evaluations=len(bad), distinct=len(bad), distinct_hashes=None, samples=[],
+                   violations=[dict(signature="C15/generated-code-does-not-compile",
+                                    detail=f"modules {bad} generated by zlink-codegen do not compile, e.g. " + "; ".join(f"m{k}: {e}" for k, e in list(first_err.items())[:6]) + "\n(IDL texts are in corpus15/src/gen/d<k>.rs, const IDL)",
+                                    replay=dict(monitor="c15", modules=bad))],
+                   violation_counts={"C15/generated-code-does-not-compile": len(bad)},
+                   counters={"modules_not_compiling": len(bad)}, inconclusive=[], exhaustive=False, notes=[])
+        results.append(dict(layer="native", monitor="c15", shard=0, rc=0, wall=0.0, output_tail="", report=rep))
+        excluded.extend(bad)
+        generate()
+        if os.path.exists(stamp_file):
+            os.remove(stamp_file)     # a corpus with exclusions is never reused
+    return dict(results=results, inconclusive=inconclusive)
+
+
+PROPS["C15"] = dict(
+    level="exploration", pre="prepare_corpus15",
+    rule=("a generated corpus of interface descriptions (quick 24 interfaces / ~60 methods, thorough 200) with non-recursive types "
+          "and names that stay distinct after case conversion: member names with acronyms (GetURL, NotOK, IPv6, HTTPStatus), digits "
+          "(Get2FA, Box2D), Rust keywords (Type, Move, Fn ...); field / parameter names in camelCase, snake_case, with digits and "
+          "keywords (type, match, try, box ...); enum values such as fooBar, IPv6, notOK; types over every constructor incl. inline "
+          "structs and enums; zlink_codegen is called as a library on each, the modules are compiled, and every method is called "
+          "through its generated proxy with random values of the declared shapes, 400 (thorough 20000) rounds; distinct = (method, round)"),
+    oracle=("the generated modules compile; the captured call == {method: <interface>.<IDL name>, parameters: {<IDL parameter "
+            "names>: values}} (null == absent for nullable members); replies and errors scripted with exactly the IDL's spellings "
+            "decode as Ok(Ok(out)) / Ok(Err(e)) and the decoded value re-encodes to the scripted spellings; custom-typed arguments are "
+            "built by deserialising IDL-spelled JSON into whatever type the generated signature asks for - a refusal is a violation"),
+    assumptions=["the driver assumes of codegen only: scalars by value, everything else by reference or Option thereof, Rust method name = snake_case (+ '_' for keywords)",
+                 "the quick corpus has a fixed seed; modules that do not compile are reported and left out so that the rest still runs"],
+    floor_quick=2_000, floor_thorough=100_000,
+    steps=[
+        dict(layer="native", package="corpus15", monitor="c15", features="drivers", tsuffix="-c15", shards_quick=4, shards_thorough=16),
+    ],
+)
+SETUP_EXTRA += [("native", "cg")]
+
 LEVEL_TEXT = {}
 
 def _na():
